@@ -3,11 +3,12 @@ from common import COMMON_TRUSTED
 PROP = dict(
     title="Parallel epoch search returns a hit whenever one exists",
     coq_target="Properties/C18.vo",
-    harness=[dict(name="firstsuccess", pkg=".", run="^TestVerif_C18(Kinds)?$",
+    harness=[dict(name="firstsuccess", pkg=".", run="^TestVerif_C18(Kinds|Large)?$",
                   files={"zz_verif_c18_test.go": "harness/main/c18_test.go",
-                         "zz_verif_c18kinds_test.go": "harness/main/c18kinds_test.go"}, timeout=900, timeout_thorough=2400)],
+                         "zz_verif_c18kinds_test.go": "harness/main/c18kinds_test.go",
+                         "zz_verif_c18large_test.go": "harness/main/c18large_test.go"}, timeout=900, timeout_thorough=2400)],
     technique="Coq proof over all schedules of a transition-system model of FirstSuccess + exhaustive gated-order correspondence against the Go code",
-    level_text="Theorems (Coq, no axioms) for every job list, limit and schedule: a success result is a job's value, an error result lists a permutation of all errors and implies all jobs failed, progress (never stuck) and a 3n+2 bound on schedule length. Tie: the real FirstSuccess/JobGroup is run on every outcome vector x completion order x limit for <=4 (quick) / <=5 (thorough) jobs and each observed result must satisfy the proved acceptance predicate (and equal the model's run where the order is forced). A second enumeration varies the ERROR VALUE a failing job returns (plain value, ErrNotFound, ErrorSlice of 1-3 elements from a nested group, errors wrapping or equal to context.DeadlineExceeded / context.Canceled of a job-local sub-context, pointer-typed error) with the request context live: all vectors for <=3 jobs and the at-most-one-success families for 4 (thorough: 5) jobs x orders x limits; the error list must hold exactly one entry per job, matched by identity / errors.Is / errors.As against the values the jobs returned.",
+    level_text="Theorems (Coq, no axioms) for every job list, limit and schedule: a success result is a job's value, an error result lists a permutation of all errors and implies all jobs failed, progress (never stuck) and a 3n+2 bound on schedule length. Tie: the real FirstSuccess/JobGroup is run on every outcome vector x completion order x limit for <=4 (quick) / <=5 (thorough) jobs and each observed result must satisfy the proved acceptance predicate (and equal the model's run where the order is forced). A second enumeration varies the ERROR VALUE a failing job returns (plain value, ErrNotFound, ErrorSlice of 1-3 elements from a nested group, errors wrapping or equal to context.DeadlineExceeded / context.Canceled of a job-local sub-context, pointer-typed error) with the request context live: all vectors for <=3 jobs and the at-most-one-success families for 4 (thorough: 5) jobs x orders x limits; the error list must hold exactly one entry per job, matched by identity / errors.Is / errors.As against the values the jobs returned. A third part runs LARGE job sets (6, 17, 32, 33, 34, 64, 100, 257 jobs; thorough also 65, 128, 500) with structured outcome vectors (all fail with own errors / all not-found / all not-found but one hard error at the first, middle or last completion position / exactly one success at the first, middle or last completion position) x completion orders identity, reverse, seeded shuffle x limits -1, 1, 4, n under the same oracle (plus: a list for a job set with a hard error is not all-not-found, the classification findEpochNumberFromSignature makes); the cases with <=64 jobs at limits 1 and -1 are also judged by the Coq acceptance predicate (limit 1: equal to the model's run).",
     level_note="Trusted: Coq kernel; the hand-written transition system (launcher/workers/closer/consumer; errgroup limit; buffered FIFO channel) as a model of first-success.go, validated by exhaustive small-scope runs; live request context only.",
     design_ref="5 (C18)",
     trusted=["model FS.v of first-success.go (hand-written; tied by exhaustive correspondence for small job counts)"] + COMMON_TRUSTED,
